@@ -199,10 +199,44 @@ PROPS = {
         "technique": "Lean 4 invariant proof (coherence of cache and bank, conserved quantity supply + EVM view − bank) by induction over op sequences + differential correspondence + transaction-level monitors",
         "explanation": "Exact mint/burn accounting of Commit and the conservation invariant proved for all histories; the real StateDB/bank are driven with transfers, round trips across flushes, mirrored and unmirrored bank movements and compared state-for-state (including total supply) with the compiled Lean driver; supply and balance equations evaluated on real transactions that pay value and call the staking precompile from nested frames.",
     },
+    "C01": {
+        "id": "C01",
+        "lean_modules": ["HaqqModel.Props.C01"],
+        "level": "proof",
+        "no_model": True,
+        "trusted_base": COMMON_TRUST + [
+            "modelled, not verified: the auth keeper's account-number assignment as the only order-sensitive effect of a flush; everything the runtime contributes (Go's randomised map iteration, goroutine scheduling, the wall clock) cannot be exhibited by a model — its absence from consensus code is established by the regenerated facts (a type-checked sweep over every consensus package with go/packages) plus the listed justifications, and searched by the replica run",
+        ],
+        "assumptions": [
+            "the listed order-insensitive map ranges, telemetry-only time.Now() calls and non-state goroutines are judged by inspection (justification next to each entry in Props/C01.lean); a new site of any of these kinds breaks a theorem",
+            "CometBFT, IAVL and the Cosmos SDK modules below Haqq's own code are deterministic",
+        ],
+        "level_text": "Partial. Machine-checked (Lean 4): flushing the dirty set in sorted order is independent of the enumeration order of the dirty map (and is order-sensitive without the sort); over facts regenerated from the source on every run: StateDB.Commit iterates sortedDirties()/SortedKeys(), every map range in consensus code feeds a sort or is a listed order-insensitive site, time.Now() and goroutines occur only at listed non-state sites, the module orders are duplicate-free over one module set. Searched, not proved: two independently constructed applications are fed the same generated block histories and every DeliverTx/EndBlock result and app hash is compared.",
+        "level_note": "Partial: the runtime sources of nondeterminism cannot be modelled; their syntactic absence is a regenerated, kernel-checked fact and the replica run searches for the rest. Trusted: Lean kernel; go/packages-based extractor; the replica harness.",
+        "technique": "Lean 4 theorem on the canonicalising sort + kernel-checked regenerated facts (type-checked source sweep) + replica differential run",
+        "explanation": "Order-canonicalisation proved; determinism facts regenerated from the type-checked source and decided in the kernel; histories mixing Cosmos, EVM, puppet-contract, precompile, staking, DAO and governance transactions run on two replicas and compared block by block.",
+    },
+    "C20": {
+        "id": "C20",
+        "lean_modules": ["HaqqModel.Props.C20"],
+        "level": "proof",
+        "no_model": True,
+        "trusted_base": COMMON_TRUST + [
+            "modelled, not verified: a node as (database, process memory); that app.NewHaqq derives its memory from the database and the binary alone; baseapp/IAVL LoadLatestVersion; OS and filesystem behaviour of a real crash is outside the property (block boundaries only) and outside the model",
+        ],
+        "assumptions": [
+            "the listed receiver-field writers are rebuilt on restart (construction-time With*/SetHooks wiring, the chain id re-derived from the header in BeginBlock); AddEVMExtensions is excluded because the facts show it has no caller",
+            "process-local state outside Keeper/Haqq receiver fields (package-level variables) is not swept by the fact extractor; the restart run searches for it",
+        ],
+        "level_text": "Partial. Machine-checked (Lean 4): if every post-construction write to process memory is one that construction followed by the next BeginBlock repeats, a node restarted at a block boundary yields the same outputs and databases as the running node for every continuation (restart_equiv, by induction over the continuation), and the hypothesis is necessary (memoised-parameter counterexample); the hypothesis is discharged over regenerated facts: the complete list of receiver-field writes in Keeper/Haqq methods and the callers of the dynamic extension registration. Searched, not proved: at marked block boundaries a fresh application is built over a copy of the database and compared (start-up height/hash, all later results and hashes).",
+        "level_note": "Partial: the abstract restart theorem is proved, its hypothesis is tied to the code by regenerated facts and by the restart run on database copies. Trusted: Lean kernel; extractor; harness; baseapp/IAVL.",
+        "technique": "Lean 4 refinement-style theorem (restart equivalence under a rebuilt-memory relation) + kernel-checked regenerated facts + restart differential run on database copies",
+        "explanation": "Restart equivalence proved for the abstract node; every write to keeper process memory enumerated from the source and matched against the rebuilt list; block histories including a governance change of the active EVM extensions are continued on restarted copies at random boundaries and right after the change.",
+    },
 }
 
 # properties not (yet) claimed, each with a reason; entries disappear as checks are built
 NOT_APPLICABLE = {pid: "check not built yet in this session (planned: see DESIGN.md §5)" for pid in
-                  ["C01", "C03", "C04", "C10", "C15", "C16", "C19", "C20"]}
+                  ["C03", "C04", "C10", "C15", "C16", "C19"]}
 
 HOOK_COMMITS = []
